@@ -12,11 +12,26 @@
     blocks on results or progress: at most one send per file), the status channel has capacity
     `numWorkers` and its consumer is started after the queueing loop, which cannot block, and before the
     collector; workers send in the order status, status, status, result, progress. `sends_fit` is the
-    counting fact behind "never blocks". A transition-system proof of termination for all schedules is NOT
-    done in Lean; schedules are exercised (forced arrival orders for <= 4 files exhaustively, 0..200 files,
-    GOMAXPROCS 1/2/4/16, race detector in the thorough tier).
+    counting fact behind "never blocks".
+  * Pool as a transition system (`Cpf.Scan.Pool`, proofs in `Cpf.Lemmas.Pool`): main, any number of workers,
+    the status goroutine and the closer, with blocking sends on full channels and blocking receives on empty
+    open ones, for **every schedule** (the step relation is non-deterministic), every number of files and
+    workers, and any mix of files that fail to read or parse:
+      - `C07_pool_terminates`   no schedule is infinite (a measure decreases on every step);
+      - `C07_pool_no_deadlock`  with the capacities the source uses, some goroutine can step until the scan returns;
+      - `C07_pool_complete`     when the scan returns, every produced per-file graph has been merged, every worker
+                                has exited, and every file was either merged or given up on: merged + failed = n.
+    The control shape of the five pieces of Initialize is regenerated from the source by factgen's `shape`
+    translator and pinned in `C07_pool_shape`; the program counters of the model are read off that shape
+    (worker: 0 = `range:fileChan`, 1..3 = the three `send:statusChan`, the two `if[continue]` sit between
+    the first and the second, 4 = `send:resultChan`, 5 = `send:progressChan`, 6 = after `end-range`).
+    What stays outside Lean: the Go memory model (channels are modelled as counters with FIFO-free
+    semantics, enough for counting), the tree-sitter calls inside a worker, and real time. Those are
+    exercised: forced arrival orders for <= 4 files exhaustively, 0..200 files, stalled workers,
+    GOMAXPROCS 1/2/4/16, race detector in the thorough tier.
 -/
 import Cpf.Scan.Merge
+import Cpf.Lemmas.Pool
 import Cpf.Props.C03
 
 namespace Cpf.Props.C07
@@ -252,6 +267,99 @@ theorem C07_pool_facts :
     poolOrder = ["define-worker", "wg-add", "start-workers", "send-files", "close-files", "start-status", "start-closer", "collect"] ∧
     poolWorkerSends = ["statusChan", "statusChan", "statusChan", "resultChan", "progressChan"] := by
   decide
+
+/-! ### the worker pool as a transition system -/
+
+open Cpf.Scan.Pool in
+/-- the capacity the source gives a channel, read from the regenerated `make(chan …, cap)` table -/
+def srcCap (n : Nat) (chan : String) : Nat :=
+  match (poolChans.find? (·.1 = chan)).map (·.2) with
+  | some "totalFiles" => n
+  | some "numWorkers" => poolNumWorkersNat
+  | _ => 0
+
+/-- the configuration Initialize runs with on a project of `n` files -/
+def srcCfg (n : Nat) : Cpf.Scan.Pool.Cfg :=
+  { n := n, fileCap := srcCap n "fileChan", resultCap := srcCap n "resultChan",
+    statusCap := srcCap n "statusChan", progressCap := srcCap n "progressChan" }
+
+theorem srcCfg_eq (n : Nat) : srcCfg n = { n := n, fileCap := n, resultCap := n, statusCap := 5, progressCap := n } := by
+  have h : ((poolChans.find? (·.1 = "fileChan")).map (·.2), (poolChans.find? (·.1 = "resultChan")).map (·.2),
+            (poolChans.find? (·.1 = "statusChan")).map (·.2), (poolChans.find? (·.1 = "progressChan")).map (·.2), poolNumWorkersNat)
+      = (some "totalFiles", some "totalFiles", some "numWorkers", some "totalFiles", 5) := by decide
+  simp only [Prod.mk.injEq] at h
+  obtain ⟨h1, h2, h3, h4, h5⟩ := h
+  simp only [srcCfg, srcCap, h1, h2, h3, h4, h5]
+
+/-- the source's capacities are sufficient -/
+theorem C07_caps_ok (n : Nat) : Cpf.Scan.Pool.CapsOk (srcCfg n) := by
+  rw [srcCfg_eq]; simp [Cpf.Scan.Pool.CapsOk]
+
+/-- the control shape the model's program counters are read off (regenerated on every run) -/
+theorem C07_pool_shape :
+    poolWorkerShape = ["range:fileChan", "send:statusChan", "if[continue]", "if[continue]", "send:statusChan",
+                       "send:statusChan", "send:resultChan", "send:progressChan", "end-range", "call:wg.Done()"] ∧
+    poolSenderShape = ["loop[send:fileChan]"] ∧
+    poolStatusShape = ["forever", "select", "case(recv:statusChan)[if[return]]", "case(recv:progressChan)[if[return]]",
+                       "end-select", "end-forever"] ∧
+    poolCloserShape = ["call:wg.Wait()", "close:resultChan", "close:statusChan", "close:progressChan"] ∧
+    poolCollectShape = ["range:resultChan", "end-range"] := by
+  decide
+
+/-- **C07 (pool, termination)**: no schedule of the pool is infinite — whatever the capacities. -/
+theorem C07_pool_terminates (c : Cpf.Scan.Pool.Cfg) (run : Nat → Cpf.Scan.Pool.St) :
+    ¬ ∀ k, Cpf.Scan.Pool.Step c (run k) (run (k + 1)) := by
+  intro h
+  have key : ∀ k, Cpf.Scan.Pool.phi (run k) + k ≤ Cpf.Scan.Pool.phi (run 0) := by
+    intro k
+    induction k with
+    | zero => simp
+    | succ k ih => have := Cpf.Scan.Pool.step_decreases c _ _ (h k); omega
+  have := key (Cpf.Scan.Pool.phi (run 0) + 1)
+  omega
+
+/-- **C07 (pool, no deadlock)**: on a project of `n` files with `w` workers, in every reachable state in
+    which the scan has not returned, some goroutine can take a step. -/
+theorem C07_pool_no_deadlock (n w : Nat) (s : Cpf.Scan.Pool.St) (hr : Cpf.Scan.Pool.Reach (srcCfg n) w s)
+    (hnf : s.mainPc ≠ 4) : ∃ s', Cpf.Scan.Pool.Step (srcCfg n) s s' :=
+  Cpf.Scan.Pool.no_deadlock (srcCfg n) w (C07_caps_ok n) s hr hnf
+
+/-- **C07 (pool, completeness)**: when the scan returns, every per-file graph a worker produced has been
+    merged, and (with at least one worker) every one of the `n` files was merged or given up on. -/
+theorem C07_pool_complete (n w : Nat) (s : Cpf.Scan.Pool.St) (hr : Cpf.Scan.Pool.Reach (srcCfg n) w s)
+    (hret : s.mainPc = 4) :
+    s.collected = s.produced ∧ (0 < w → s.fileQ = 0 ∧ s.unsent = 0 ∧ s.collected + s.failed = n) := by
+  have := Cpf.Scan.Pool.collects_all (srcCfg n) w s hr hret
+  simpa [srcCfg] using this
+
+/-- without failing files, all `n` files are merged -/
+theorem C07_pool_all_merged (n w : Nat) (s : Cpf.Scan.Pool.St) (hr : Cpf.Scan.Pool.Reach (srcCfg n) w s)
+    (hret : s.mainPc = 4) (hw : 0 < w) (hnofail : s.failed = 0) : s.collected = n := by
+  have := (C07_pool_complete n w s hr hret).2 hw
+  omega
+
+/-- Non-vacuity: one file, one worker — a complete schedule exists and ends with the file merged. -/
+example : ∃ s, Cpf.Scan.Pool.Reach (srcCfg 1) 1 s ∧ s.mainPc = 4 ∧ s.collected = 1 := by
+  rw [srcCfg_eq]
+  refine ⟨{ unsent := 0, mainPc := 4, fileQ := 0, workers := [6], statusQ := 3, resultQ := 0, progressQ := 1,
+            statusExited := false, closed := true, collected := 1, produced := 1, failed := 0 }, ?_, rfl, rfl⟩
+  open Cpf.Scan.Pool in
+  have s0 := @Reach.init { n := 1, fileCap := 1, resultCap := 1, statusCap := 5, progressCap := 1 } 1
+  have s1 := Reach.step s0 (Step.queue rfl (by decide) (by decide))
+  have s2 := Reach.step s1 (Step.closeFiles rfl rfl)
+  have s3 := Reach.step s2 (Step.take 0 rfl (by decide))
+  have s4 := Reach.step s3 (Step.status 0 1 rfl (Or.inl rfl) (by decide))
+  have s5 := Reach.step s4 (Step.status 0 2 rfl (Or.inr (Or.inl rfl)) (by decide))
+  have s6 := Reach.step s5 (Step.status 0 3 rfl (Or.inr (Or.inr rfl)) (by decide))
+  have s7 := Reach.step s6 (Step.result 0 rfl (by decide))
+  have s8 := Reach.step s7 (Step.progress 0 rfl (by decide))
+  have s9 := Reach.step s8 (Step.exit 0 rfl rfl (by decide))
+  have s10 := Reach.step s9 (Step.startStatus rfl)
+  have s11 := Reach.step s10 (Step.startCloser rfl)
+  have s12 := Reach.step s11 (Step.close (by decide) rfl rfl)
+  have s13 := Reach.step s12 (Step.collect rfl (by decide))
+  have s14 := Reach.step s13 (Step.finish rfl rfl rfl)
+  exact s14
 
 /-- every identity is scoped to its file (regenerated; needed for `DisjointIds`) -/
 theorem C07_ids_file_scoped : ∀ l ∈ nodeLits, l.idFmt.any (fun a => match a with | .file => true | _ => false) = true :=
